@@ -680,6 +680,11 @@ func (s *Sim) checkClaimTx(b *blockObs, m pc.MsgClaim, r abci.ResponseDeliverTx,
 			allow := maxPossibleRelays(app.MaxRelays, int64(len(app.Chains)), cnt)
 			if m.TotalProofs > allow {
 				s.violate("C32", "claim-over-allowance", "claim", fmt.Sprintf("height %d: claim of %d relays accepted, the application allows this node %d", h, m.TotalProofs, allow))
+			} else if sdk.NewInt(m.TotalProofs).Mul(sdk.NewInt(int64(len(app.Chains)) * cnt)).GT(app.MaxRelays) {
+				// within the node's share as the chain computes it, but that share is the exact share
+				// rounded to the nearest integer: when every node of the session claims it, the
+				// session's claims add up to more than the application's allowance
+				s.violate("C32", "claim-over-allowance", "share-rounded-up", fmt.Sprintf("height %d: claim of %d relays accepted; the application allows %s relays per session over %d chain(s) and %d nodes, i.e. %s per node and chain: %d nodes claiming %d each exceed the allowance", h, m.TotalProofs, app.MaxRelays, len(app.Chains), cnt, app.MaxRelays.ToDec().Quo(sdk.NewDec(int64(len(app.Chains))*cnt)), cnt, m.TotalProofs))
 			}
 		}
 	}
